@@ -729,7 +729,7 @@ func runC12(c *Ctx) {
 			FastAck:    rnd.Bool(),
 		}
 		if i%4 == 1 {
-			cs.PacketSize = []int{4104, 8192, 16384}[rnd.Intn(3)]
+			cs.PacketSize = []int{4104, 8192, 16384, 32768, 65535}[rnd.Intn(5)]
 			if cs.Rounds > 12 {
 				cs.Rounds = 12
 			}
